@@ -58,4 +58,15 @@ def install():
     sys.modules["bourse.data_processing"] = dp
     spec2.loader.exec_module(dp)
     pkg.data_processing = dp
+    # `bourse.step_sim` (pure Python: runner and agent base classes); tqdm is replaced by a plain range
+    if "tqdm" not in sys.modules:
+        tq = types.ModuleType("tqdm")
+        tq.trange = lambda n, **kw: range(n)
+        tq.tqdm = lambda it, **kw: it
+        sys.modules["tqdm"] = tq
+    try:
+        pkg.step_sim = importlib.import_module("bourse.step_sim")
+    except Exception as ex:  # noqa: BLE001 - reported by the driver as a finding
+        pkg.step_sim = None
+        pkg.step_sim_error = repr(ex)
     return core, dp
